@@ -136,6 +136,15 @@ ZERO = {
 }
 ZERO_REPEATS = {"quick": 12, "thorough": 150}
 
+# Evaluation errors of the audition itself (activation condition, computes) that
+# reach conduct while the prompter is WAITING between scenes: no command is
+# running that could fail in their place.
+PLAIN = {
+    "activation-error-while-the-prompter-waits": ("script\n  tempo 500ms\n  scene r mood starts red\n  storyline ..r\nend\naudience\n  alice audits only while mood > 3\n  alice expects always: mood == 'clear'\nend\n", True),
+    "computes-error-midplay-while-the-prompter-waits": ("script\n  tempo 500ms\n  scene r mood starts red\n  scene c mood starts clear\n  storyline .r..c\nend\naudience\n  alice audits only while mood == 'red'\n  alice computes x as mood * 2\n  alice expects always: mood == 'red'\nend\n", True),
+    "no-error-moods-only": ("script\n  tempo 300ms\n  scene r mood starts red\n  scene c mood starts clear\n  storyline .r.c\nend\naudience\n  alice audits only while mood == 'red'\n  alice expects always: t >= 0\nend\n", False),
+}
+
 
 # A play that is already fouled and is then asked to end with a signal: the
 # verdict has to survive the signal path of runConduct too.
@@ -193,6 +202,8 @@ def signalled_play(binpath, signame):
 def run_play(binpath, name, early, keepdir=None):
     if name in ZERO:
         return _run(binpath, name, early, ZERO[name][0], ZERO[name][1])
+    if name in PLAIN:
+        return _run(binpath, name, early, PLAIN[name][0], PLAIN[name][1])
     sub, expected = E2E[name]
     if name in E2E_MULTI:
         d = dict(cleanup_r="true", cleanup_q="true", zact="ok")
@@ -252,6 +263,7 @@ def run(tier, seed):
 
     # ---- end-to-end plays: exit status and Foul flag per single cause, with and without -S
     jobs = [(n, e) for n in E2E for e in (False, True)]
+    jobs += [(n, e) for n in PLAIN for e in (False, True)]
     jobs += [(n, e) for n in ZERO for e in (False, True) for _ in range(ZERO_REPEATS[tier])]
     with concurrent.futures.ThreadPoolExecutor(max_workers=12) as ex:
         sig_futures = [ex.submit(signalled_play, bins["shakespeare"], sn) for sn in ("SIGTERM", "SIGHUP", "SIGINT")]
